@@ -431,11 +431,11 @@ def replay(case):
                 return [Discrepancy("repeated_keyword_occurrences", f"{f['key'].upper()} is written {n} times but holds {vals!r:.80} with positions {pos!r:.80}", case)]
             return []
         elif f["kind"] == "repeated_item":
-            o[f["key"]][f["occurrence"]] = eval(f["value"], {"__builtins__": {}}, {})
+            o[f["key"]][f["occurrence"]] = eval(f["value"], {"__builtins__": {}}, {"inf": float("inf"), "nan": float("nan")})
         elif f["kind"] == "repeated_points":
             return check_repeated_points(doc, r, d, case)
         else:
-            o[f["key"]] = eval(f["value"], {"__builtins__": {}}, {})
+            o[f["key"]] = eval(f["value"], {"__builtins__": {}}, {"inf": float("inf"), "nan": float("nan")})
         return check_fault_position(doc, r, d, f)
     return [Discrepancy(b, m, case) for b, m in check_positions(doc, r, d)[:1]]
 
